@@ -19,7 +19,8 @@ PKG = 'onsager'
 # rule a tree form it was not written for makes its anchors vanish (false alarms / floors not met), so the form is part of
 # the rule, declared here per property, and never a global switch.
 NORMAL_FORM_PROPS = frozenset(['C01', 'C02', 'C04', 'C06', 'C11', 'C12', 'C15', 'C24', 'C27', 'C28'])
-FORMS = ('raw', 'normal')
+FORMS = ('raw', 'normal', 'inlined')
+INLINED_FORM_PROPS = frozenset(['C07', 'C10', 'C13', 'C14', 'C16', 'C17', 'C18', 'C21', 'C22', 'C23', 'C26', 'C29', 'C31', 'C32', 'C33', 'C34', 'C35', 'C36'])
 _NORM_CACHE = {}
 
 
@@ -28,16 +29,16 @@ def form_for(prop):
     forced = os.environ.get('SA_FORM')
     if forced in FORMS:
         return forced
-    return 'normal' if prop in NORMAL_FORM_PROPS else 'raw'
+    return 'normal' if prop in NORMAL_FORM_PROPS else ('inlined' if prop in INLINED_FORM_PROPS else 'raw')
 
 
-def _normalized(src, raw):
+def _normalized(src, raw, only_inline=False):
     """normal form of one module; memoised in the process and, keyed by the digest of (source, norm.py), on disk under
     /verif/.cache (git-ignored: a fresh checkout recomputes it; a stale or unreadable entry is ignored)."""
     import hashlib
     import pickle
     from .engines import norm
-    key = hashlib.sha1(src.encode('utf-8', 'replace')).hexdigest()
+    key = hashlib.sha1(src.encode('utf-8', 'replace')).hexdigest() + ('-inl' if only_inline else '')
     if key not in _NORM_CACHE:
         tree = None
         path = None
@@ -52,7 +53,7 @@ def _normalized(src, raw):
             except Exception:
                 tree = None
         if tree is None:
-            tree = norm.normalize_module(raw)
+            tree = norm.normalize_module(raw, only_inline=only_inline)
             if path is not None:
                 try:
                     os.makedirs(os.path.dirname(path), exist_ok=True)
@@ -172,7 +173,8 @@ class Module:
         # stays available as ``raw_tree`` for rules about text (format strings, docstrings, resources);
         # form 'raw': the rules read the tree as written
         self.raw_tree = attach_parents(raw)
-        self.tree = attach_parents(_normalized(src, raw)) if form == 'normal' else self.raw_tree
+        self.tree = attach_parents(_normalized(src, raw)) if form == 'normal' else \
+            attach_parents(_normalized(src, raw, only_inline=True)) if form == 'inlined' else self.raw_tree
         self.classes = {}
         self.functions = {}  # qualname -> FunctionDef ('f', 'C.m', 'C.m.inner')
         self.imports = {}  # local alias -> dotted target ('np' -> 'numpy', 'pinv' -> 'scipy.linalg.pinv')
